@@ -131,8 +131,11 @@ class USBIsochronousStreamOutEndpoint(Elaboratable):
             fifo.write_en        .eq(okay_to_receive & rx.next & rx.valid),
 
             # We'll keep data if our packet finishes with a valid CRC; and discard it otherwise.
-            fifo.write_commit    .eq(targeting_endpoint & boundary_detector.complete_out),
-            fifo.write_discard   .eq(targeting_endpoint & boundary_detector.invalid_out),
+            # We'll also discard a packet that did not fit into the FIFO (e.g. one longer than our
+            # max packet size); otherwise we'd commit a truncated packet.
+            fifo.write_commit    .eq(targeting_endpoint & boundary_detector.complete_out & ~overflow),
+            fifo.write_discard   .eq(targeting_endpoint & (boundary_detector.invalid_out |
+                                                           (boundary_detector.complete_out & overflow))),
 
             # Our stream data always comes directly out of the FIFO; and is valid
             # whenever our FIFO actually has data for us to read.
